@@ -148,7 +148,7 @@ CHECKS = {
              "cell exists), which ends the history; the hand-written step glue of the example simulations is "
              "monitored, not modelled - ReachTheTargetSim deactivates runners by hand (active = False with positive "
              "health) and is judged by WInvWeak (zero health -> inactive) instead of active <-> health > 0; "
-             "simulations without a HealthState are dumped with health 1; pacman's teleport surgery is not driven."),
+             "simulations without a HealthState are dumped with health 1; pacman's teleport surgery is driven by the modelled stream (harness/p_pacman.py)."),
     "C12": dict(
         text="Lean 4 theorem C12_moves: for every grid world satisfying the consistency invariant, every active "
              "agent and every action of the action space, MoveActor/CrossMoveActor/DriftMoveActor (modelled branch "
